@@ -91,13 +91,13 @@ NATIVE = ["int", "long", "float", "double"]
 
 # ------------------------------------------------------------------ descriptions
 def mkfn(name, nparams=1, ndefaults=0, suffix=None, dsuffix=(), tinst=(), generics=(), hasBuf=False, isCtor=False,
-         usesT=False, block=None, cpp_if=None):
+         usesT=False, block=None, cpp_if=None, wrap=None):
     # fortran_generic on a function whose C prototype "order" differs from the generic's (no required parameter,
     # or a second template parameter) makes generic_function add a fortran_generic_c variant: not modelled.
     if nparams - ndefaults == 0 or any(len(t["types"]) > 1 for t in tinst):
         generics = ()
     return dict(name=name, nparams=nparams, ndefaults=ndefaults, suffix=suffix, dsuffix=list(dsuffix),
-                tinst=[dict(t) for t in tinst], generics=list(generics), hasBuf=hasBuf, isCtor=isCtor, usesT=usesT, block=block, cpp_if=cpp_if)
+                tinst=[dict(t) for t in tinst], generics=list(generics), hasBuf=hasBuf, isCtor=isCtor, usesT=usesT, block=block, cpp_if=cpp_if, wrap=wrap)
 
 
 def fn_decl(fn, ov, clsname=None):
@@ -133,6 +133,9 @@ def fn_yaml(fn, ov, clsname=None):
     d = {"decl": fn_decl(fn, ov, clsname)}
     if fn.get("cpp_if"):
         d["cpp_if"] = fn["cpp_if"]
+    if fn.get("wrap"):
+        fw_ = fn["wrap"]
+        d["options"] = {"wrap_c": fw_[0], "wrap_fortran": fw_[1], "wrap_python": fw_[2], "wrap_lua": fw_[3]}
     if fn["suffix"] is not None:
         d["format"] = {"function_suffix": fn["suffix"]}
     if fn["dsuffix"]:
@@ -185,6 +188,7 @@ def normalize(prog):
             f.setdefault("usesT", False)
             f.setdefault("block", None)
             f.setdefault("cpp_if", None)
+            f["wrap"] = tuple(f["wrap"]) if f.get("wrap") else None
     return prog
 
 
@@ -347,7 +351,13 @@ def real_expand(prog):
         lib = real_generate(program_yaml(prog))
     except Exception as e:  # noqa
         return "crash " + type(e).__name__
-    return "#".join(real_records(find_node(lib, c["path"], c.get("tmpl"))) for c in prog["containers"])
+    out = []
+    for c in prog["containers"]:
+        try:
+            out.append(real_records(find_node(lib, c["path"], c.get("tmpl"))))
+        except Exception as e:  # noqa  -- the scope is not where the input puts it
+            out.append("scope-missing " + type(e).__name__)
+    return "#".join(out)
 
 
 FLAT = {"int": "_int", "long": "_long", "float": "_float", "double": "_double"}
@@ -364,7 +374,8 @@ def enc_fn(fn):
         common.enc(fn["name"]), str(fn["nparams"]), str(fn["ndefaults"]), enc_opt(fn["suffix"]),
         "+".join(common.enc(s) for s in fn["dsuffix"]) or "~", ti,
         "+".join(enc_opt(g) for g in fn["generics"]) or "~",
-        "1" if fn["hasBuf"] else "0", "1" if fn["isCtor"] else "0", "1" if fn.get("usesT") else "0", enc_opt(fn.get("cpp_if"))])
+        "1" if fn["hasBuf"] else "0", "1" if fn["isCtor"] else "0", "1" if fn.get("usesT") else "0", enc_opt(fn.get("cpp_if")),
+        "".join("1" if b else "0" for b in fn["wrap"]) if fn.get("wrap") else "N"])
 
 
 def enc_container(c):
@@ -560,6 +571,49 @@ def cppif_programs(thorough, r):
             yield dict(library="cif", wrap=(True, True, False, False), cprefix=None, containers=conts)
 
 
+def wrapflag_programs(thorough, r):
+    """Libraries wrapped for a subset of the languages (Python only, Lua only, C without Fortran, ...) and
+    overload sets in which single overloads switch a language off in their own `options:`: the overload
+    numbering and the per-language name tables must not depend on which languages are wrapped."""
+    libwraps = [(False, False, True, False), (False, False, False, True), (False, False, True, True),
+                (True, False, True, False), (True, True, True, True)]
+    offs = [(False, True, True, True), (True, False, True, True), (False, False, True, True), (True, True, False, False)]
+    k = 0
+    for lw in libwraps:
+        for oi, off in enumerate(offs if thorough else offs[:3]):
+            k += 1
+            def ovl(name, n=3):
+                fns = [mkfn(name, nparams=1 + i) for i in range(n)]
+                return fns
+            over = ovl("over")
+            mix = ovl("mix", 2)
+            # one overload switches languages off for itself
+            mix[k % 2]["wrap"] = tuple(a and b for a, b in zip(lw, off))
+            meth = ovl("meth", 2) + [mkfn("solo")]
+            meth[0]["wrap"] = tuple(a and b for a, b in zip(lw, off)) if k % 3 == 0 else None
+            conts = [dict(path=[], fns=over + mix + [mkfn("single", nparams=2, ndefaults=1)]),
+                     dict(path=[("cls", "Cls")], fns=[mkfn("ctor", nparams=i, isCtor=True) for i in range(2)] + meth)]
+            yield dict(library="wfl", wrap=lw, cprefix=None, containers=conts)
+
+
+def nested_class_programs(thorough, r):
+    """Classes of the same name in nested scopes (`::Cls`, `ns::Cls`, `ns::inner::Cls`; `ns::Solo`,
+    `ns::inner::Solo`), declared outer-first and inner-first: each keeps its own scope prefix and files."""
+    def members(i):
+        return [mkfn("meth"), mkfn("meth", nparams=2), mkfn("only%d" % i)]
+    sets = [
+        [[("cls", "Cls")], [("ns", "ns"), ("cls", "Cls")]],
+        [[("cls", "Cls")], [("ns", "ns"), ("cls", "Cls")], [("ns", "ns"), ("ns", "inner"), ("cls", "Cls")]],
+        [[("ns", "ns"), ("cls", "Solo")], [("ns", "ns"), ("ns", "inner"), ("cls", "Solo")]],
+        [[("nsf", "ns"), ("cls", "Cls")], [("ns", "other"), ("cls", "Cls")], [("ns", "other"), ("nsf", "deep"), ("cls", "Solo")]],
+    ]
+    for paths in sets:
+        for order in (paths, paths[::-1]):
+            conts = [dict(path=p, fns=members(i)) for i, p in enumerate(order)]
+            conts.append(dict(path=[], fns=[mkfn("freeFn")]))
+            yield dict(library="lib", wrap=(True, True, False, False), cprefix=None, containers=conts)
+
+
 def table_programs(thorough, r):
     """Programs wrapped for all four languages whose overload sets are adjacent, interleaved or split by other
     declarations, at library level, in classes and in class templates, with and without `block:` groups: the
@@ -736,18 +790,18 @@ def entries_of(fns):
                 ts = t["explicit"] or (FLAT[t["types"][0]] if len(t["types"]) == 1 else "_%d" % i)
                 for k in range(fn["ndefaults"] + 1):
                     e = fn["dsuffix"][k] if k < len(fn["dsuffix"]) else fn["suffix"]
-                    out.append((e if e is not None else "_%d" % k, ts, gs, fn["hasBuf"], True, fn.get("cpp_if")))
+                    out.append((e if e is not None else "_%d" % k, ts, gs, fn["hasBuf"], True, fn.get("cpp_if"), fn.get("wrap")))
             continue
         for k in range(fn["ndefaults"]):
             e = fn["dsuffix"][k] if k < len(fn["dsuffix"]) else fn["suffix"]
-            out.append((e, "", gs, fn["hasBuf"], bool(fn["tinst"]), fn.get("cpp_if")))
+            out.append((e, "", gs, fn["hasBuf"], bool(fn["tinst"]), fn.get("cpp_if"), fn.get("wrap")))
         e = fn["dsuffix"][fn["ndefaults"]] if (fn["ndefaults"] and fn["ndefaults"] < len(fn["dsuffix"])) else fn["suffix"]
         if fn["tinst"]:
             for i, t in enumerate(fn["tinst"]):
                 ts = t["explicit"] or (FLAT[t["types"][0]] if len(t["types"]) == 1 else "_%d" % i)
-                out.append((e, ts, gs, fn["hasBuf"], True, fn.get("cpp_if")))
+                out.append((e, ts, gs, fn["hasBuf"], True, fn.get("cpp_if"), fn.get("wrap")))
         else:
-            out.append((e, "", gs, fn["hasBuf"], False, fn.get("cpp_if")))
+            out.append((e, "", gs, fn["hasBuf"], False, fn.get("cpp_if"), fn.get("wrap")))
     return out
 
 
@@ -771,7 +825,7 @@ def documented_names(prog):
         if c.get("tmpl"):
             # an explicit template_suffix of the instantiation is inherited by every member
             ts0 = c["tmpl"]["insts"][c["tmpl"]["index"]]["explicit"] or ""
-        if cls is not None:
+        if cls is not None and w[1]:
             TYPE_DOC.append((cls.lower(), tdoc))
         groups = {}
         for fn in c["fns"]:
@@ -783,25 +837,28 @@ def documented_names(prog):
             members = []
             u = doc_un_camel(name)
             mconds = []
-            for (e, ts, gs, hb, templ, cif) in ents:
+            for (e, ts, gs, hb, templ, cif, fwrap) in ents:
+                wf = fwrap or w
                 ts = ts or ts0
                 if templ:
                     sfx = e or ""
                 else:
                     sfx = e if e is not None else ("_%d" % i if nnum > 1 else "")
                     i += 1
-                cnames.append(cprefix + cscope + u + sfx + ts)
-                if hb and w[0] and w[1]:
+                # the overload number counts every overload; a name exists where the language is wrapped
+                if wf[0]:
+                    cnames.append(cprefix + cscope + u + sfx + ts)
+                if hb and wf[0] and wf[1]:
                     cnames.append(cprefix + cscope + u + sfx + "_bufferify" + ts)
-                for g in (gs or [""]):
+                for g in ((gs or [""]) if wf[1] else []):
                     members.append((fscope + u + sfx + g + ts).lower())
                     mconds.append((cif.lower(),) if cif else ())
             fspec.setdefault(module, []).extend(members)
             if cls is None:
-                if len(members) > 1 or any(f["generics"] for f in fns):
+                if len(members) > 1 or (members and any(f["generics"] for f in fns)):
                     generics.setdefault(module, {})[(fscope + u).lower()] = sorted(members)
                     DOC_COND_I.extend(((fscope + u).lower(), m, cd) for m, cd in zip(members, mconds))
-            elif fns[0]["isCtor"]:
+            elif fns[0]["isCtor"] and members:
                 generics.setdefault(module, {})[cls.lower()] = sorted(members)
                 DOC_COND_I.extend((cls.lower(), m, cd) for m, cd in zip(members, mconds))
             else:
@@ -823,8 +880,14 @@ def in_domain(prog):
     arguments and shares its name with no other function; scope + underscore forms of different names are not
     prefixes of one another (C: whole program; Fortran: per module)."""
     cst, fst = [], {}
+    types = {}
     for c in prog["containers"]:
         cprefix, cscope, fscope, module, cls = scope_info(prog, c["path"])
+        if cls is not None:
+            # derived types of one Fortran module (F_derived_name = lower-cased class name) must differ
+            if cls.lower() in types.setdefault(module, set()):
+                return False
+            types[module].add(cls.lower())
         byname = {}
         for fn in c["fns"]:
             byname.setdefault(fn["name"], []).append(fn)
@@ -847,7 +910,7 @@ def in_domain(prog):
                 gs = [g if g is not None else "_%d" % j for j, g in enumerate(fn["generics"])]
                 if len(set(gs)) != len(gs) or any(not TOKEN.match(g) for g in gs):
                     return False
-            for (e, ts, gs, hb, templ, _cif) in entries_of(fns):
+            for (e, ts, gs, hb, templ, _cif, _fw) in entries_of(fns):
                 if e is not None:
                     expl.append(e)
             if any(AUTO.match(e) or not TOKEN.match(e) or e == "_bufferify" for e in expl):
@@ -1046,8 +1109,6 @@ def oracle_full(ctx, prog, tag):
     misfiled names.  Returns True if a failure was recorded."""
     import yaml
     from tools import shroudrun
-    if not (prog["wrap"][0] and prog["wrap"][1]):
-        return False
     d = common.scratch()
     try:
         yd = program_yaml(prog)
@@ -1464,12 +1525,16 @@ def distribution(progs):
             "explicit_suffix": 0, "modules_with>=2_classes": 0, "method_name_shared_by_classes": 0,
             "shared_method_overloaded_in_some_single_in_others": 0,
             "class_template_instantiations": 0, "members_using_template_parameter": 0,
-            "functions_with_cpp_if": 0, "scopes_with_block_groups": 0, "non_adjacent_overload_sets": 0, "wrapped_for_python_or_lua": 0}
+            "functions_with_cpp_if": 0, "functions_with_own_wrap_options": 0, "libraries_without_c_or_fortran": 0,
+            "same_class_name_in_nested_scopes": 0, "scopes_with_block_groups": 0, "non_adjacent_overload_sets": 0, "wrapped_for_python_or_lua": 0}
     for p in progs:
         dist["containers"] += len(p["containers"])
         if p.get("cprefix") is not None:
             dist["explicit_C_prefix"] += 1
         dist["wrapped_for_python_or_lua"] += bool(p["wrap"][2] or p["wrap"][3])
+        dist["libraries_without_c_or_fortran"] += not (p["wrap"][0] and p["wrap"][1])
+        cn_ = [c["path"][-1][1] for c in p["containers"] if c["path"] and c["path"][-1][0] == "cls"]
+        dist["same_class_name_in_nested_scopes"] += len(set(cn_)) != len(cn_)
         names = {}
         for c in p["containers"]:
             path = c["path"]
@@ -1481,6 +1546,7 @@ def distribution(progs):
             dist["class_template_instantiations"] += bool(c.get("tmpl"))
             dist["scopes_with_block_groups"] += any(f.get("block") is not None for f in c["fns"])
             dist["functions_with_cpp_if"] += sum(1 for f in c["fns"] if f.get("cpp_if"))
+            dist["functions_with_own_wrap_options"] += sum(1 for f in c["fns"] if f.get("wrap"))
             pos = {}
             for i, f in enumerate(c["fns"]):
                 pos.setdefault(f["name"], []).append(i)
@@ -1537,7 +1603,8 @@ def run(ctx):
                        "up to 3 deep with and without F_flatten_namespace, classes inside namespaces, 2-4 classes per module sharing method names, "
                        "class templates with 1-3 instantiations and members using the template parameter, declarations grouped in `block:` "
                        "groups, overload sets adjacent / interleaved / split by other declarations wrapped for all four languages, same names "
-                       "in several scopes, "
+                       "in several scopes, libraries wrapped for a subset of the languages and overloads with their own wrap options, classes of the "
+                       "same name in nested scopes declared outer-first and inner-first, "
                        "explicit C_prefix, all wrap-flag combinations; seeded random programs above the bound. un_camel: every string over "
                        "{a,B,C,1,_} up to a length bound + random identifiers + frozen documented table. Non-trivial = the implementation "
                        "produced at least one clone; distinct = distinct request lines.")
@@ -1609,6 +1676,8 @@ def run(ctx):
     progs.extend(tables)
     cppifs = list(cppif_programs(thorough, r))
     progs.extend(cppifs)
+    wflags = list(wrapflag_programs(thorough, r)) + list(nested_class_programs(thorough, r))
+    progs.extend(wflags)
     nscope = len(progs) - ncorpus
     progs.extend(exhaustive_programs(thorough, r))
     nexh = len(progs) - ncorpus - nscope
@@ -1656,7 +1725,7 @@ def run(ctx):
             continue
         cn, fi = [], {}
         for c, cont in zip(p["containers"], a.split("#")):
-            if cont == "~":
+            if cont == "~" or cont.startswith("scope-missing"):
                 continue
             module = scope_info(p, c["path"])[3]
             for rec in cont.split(";"):
@@ -1692,7 +1761,7 @@ def run(ctx):
 
     # ---------------- oracle: full generation + output scan (implementation only)
     def interesting(p):
-        return (p.get("cprefix") != "" and
+        return (p.get("cprefix") != "" and p["wrap"][0] and p["wrap"][1] and
                 (len(p["containers"]) > 1 or any(k == "nsf" for c in p["containers"] for k, _ in c["path"]) or
                  any(fn["ndefaults"] or fn["tinst"] or fn["generics"] or fn["hasBuf"] for c in p["containers"] for fn in c["fns"])))
     cand = [p for p in dom if interesting(p)]
@@ -1700,7 +1769,7 @@ def run(ctx):
     plain = [p for p in cand if not (len(p["containers"]) > 1 or p["containers"][0]["path"])]
     nfull = (300 if thorough else 22) * (3 if ctx.broken else 1)
     tmplc = [p for p in cand if any(c.get("tmpl") for c in p["containers"])]
-    tabs = [p for p in tables if in_domain(p)] + [p for p in cppifs if in_domain(p)][:: (1 if thorough else 2)]
+    tabs = [p for p in wflags if in_domain(p)] + [p for p in tables if in_domain(p)] + [p for p in cppifs if in_domain(p)][:: (1 if thorough else 2)]
     blk = [p for p in blocked if in_domain(p) and any(c.get("tmpl") for c in p["containers"])]
     pick = ([p for p in progs[:ncorpus] if in_domain(p)] + tmplc[:: max(1, len(tmplc) // (18 if thorough else 5))] +
             tabs[:: (1 if thorough else 2)] + blk[:: max(1, len(blk) // (12 if thorough else 4))] +
